@@ -256,15 +256,51 @@ def rule_X2(ctx, entries=None):
                     # expression of a function escapes changes with every refactoring of it
                     con = "uncontained evaluation" if p.kind == "evaluate" else \
                         "uncontained raise on an evaluated value"
+                    subject = _subject(prog, p.func, p.node) if p.kind == "evaluate" else None
                     res.violated(inst, Finding(
                         "X2", p.func.file, p.func.qualname, con,
                         norm_src(p.node) + ": %s can raise %s and no frame on the call chain from %s catches it: the "
                         "exception escapes the API call, nothing is recorded and the workflow "
                         "keeps its status" % (p.what, sorted(p.raised - {"Exception", "BaseException"})[:2],
                                               entry.split(".", 1)[1]),
-                        line=p.node.lineno, chain=chain_names))
+                        line=p.node.lineno, chain=chain_names,
+                        extra={"subject": subject} if subject else None))
     res.facts["primitives_reached"] = len(reached_any)
     return res
+
+
+def _subject(prog, f, call):
+    """What an evaluate() call evaluates, as a path of constant keys / attribute names of the
+    data it is read from (`entry['retry']['when']` -> 'retry.when'), seen through local
+    copies - a description that survives moving the call to another function."""
+    from sa.core import subst_locals
+    if not (isinstance(call, ast.Call) and call.args):
+        return None
+    try:
+        e = subst_locals(f.node, call.args[0])
+    except Exception:  # noqa: B902
+        e = call.args[0]
+    parts = []
+    while True:
+        if isinstance(e, ast.Subscript) and isinstance(e.slice, ast.Constant) and isinstance(
+                e.slice.value, str):
+            parts.append(e.slice.value)
+            e = e.value
+        elif isinstance(e, ast.Attribute):
+            parts.append(e.attr)
+            e = e.value
+        elif isinstance(e, ast.Call) and isinstance(e.func, ast.Name) and e.func.id == "getattr" \
+                and len(e.args) >= 2 and isinstance(e.args[1], ast.Constant):
+            parts.append(str(e.args[1].value))
+            e = e.args[0]
+        elif isinstance(e, ast.Call) and isinstance(e.func, ast.Attribute) and e.func.attr == "get" \
+                and e.args and isinstance(e.args[0], ast.Constant):
+            parts.append(str(e.args[0].value))
+            e = e.func.value
+        else:
+            break
+    parts = list(reversed(parts))[-2:]
+    return ".".join(parts) if parts else None
 
 
 def _nested(prog, q):
